@@ -89,6 +89,13 @@ fn canon(x: f64) -> u64 {
 /// One deterministic event: returns (op name, input words, output words).
 fn event(r: &mut Rng, pool: &mut Vec<W>) -> (&'static str, Vec<u64>, Vec<u64>) {
     let pick = |r: &mut Rng, pool: &Vec<W>| -> W {
+        if r.chance(1, 40) {
+            // non-finite operands reachable through the API, and zeros of every sign pattern
+            return pk!(r, [(f64::INFINITY, f64::INFINITY), (f64::NEG_INFINITY, f64::NEG_INFINITY), (f64::INFINITY, 0.0), (f64::NEG_INFINITY, 0.0), (f64::INFINITY, f64::NEG_INFINITY), (f64::NAN, f64::NAN), (0.0, 0.0), (-0.0, 0.0), (0.0, -0.0), (-0.0, -0.0)]);
+        }
+        if r.chance(1, 30) {
+            return crate::pools::published_const(r);
+        }
         if !pool.is_empty() && r.chance(1, 3) {
             pool[r.below(pool.len() as u64) as usize]
         } else {
@@ -100,6 +107,7 @@ fn event(r: &mut Rng, pool: &mut Vec<W>) -> (&'static str, Vec<u64>, Vec<u64>) {
         0..=5 => {
             let i = r.below(N_UN);
             let a = if r.coin() { un_operand(r, i) } else { pick(r, pool) };
+            let a = if r.chance(1, 50) { crate::pools::round_integer(r) } else { a };
             (UN_NAMES[i as usize], vec![hx(a.0), hx(a.1)], guard(|| {
                 let (x, y) = un(i, t(a));
                 let mut v = vec![w(x)];
